@@ -2,6 +2,7 @@ package main
 
 import (
 	"fmt"
+	"path/filepath"
 	"verif/engine/sym"
 )
 
@@ -21,7 +22,7 @@ var commonAssume = []string{
 }
 
 func allChecks() []*CheckDef {
-	return []*CheckDef{checkC02(), checkC03(), checkC12(), checkC13(), checkC14(), checkC09(), checkC11(), checkC20(), checkC17(), checkC16()}
+	return []*CheckDef{checkC02(), checkC03(), checkC12(), checkC13(), checkC14(), checkC09(), checkC11(), checkC20(), checkC17(), checkC16(), checkC01()}
 }
 
 func checkC03() *CheckDef {
@@ -425,4 +426,64 @@ func checkC16() *CheckDef {
 		},
 		Assume: commonAssume,
 	}
+}
+
+// ---- generated-code checks ----
+
+func genCorpus() []string {
+	return []string{filepath.Join(verifDir, "corpus", "vcore.thrift")}
+}
+
+func genPrepare(k, l int) func(c *CheckDef, tier string) (map[string][]byte, []string, func(), error) {
+	return func(c *CheckDef, tier string) (map[string][]byte, []string, func(), error) {
+		info, cleanup, err := prepareGenerated(genCorpus(), k, l)
+		if err != nil {
+			return nil, nil, nil, err
+		}
+		c.Gen = info
+		c.Pkgs = []PkgDef{{Path: info.MainPkg, Dir: info.MainDir, Name: "zzmain", Raw: true}}
+		return info.Overlay, info.Patterns, cleanup, nil
+	}
+}
+
+func genHarnesses(c *CheckDef, name string, extra map[string]int, budget int) []*sym.HarnessConfig {
+	var out []*sym.HarnessConfig
+	if c.Gen == nil {
+		return out
+	}
+	for i := range c.Gen.Types {
+		p := map[string]int{"type": i}
+		for k, v := range extra {
+			p[k] = v
+		}
+		out = append(out, &sym.HarnessConfig{Name: name, Pkg: c.Gen.MainPkg, Params: p, Budget: budget, BigLim: 40})
+	}
+	return out
+}
+
+func genBounds(c *CheckDef, m map[string]interface{}) map[string]interface{} {
+	if c.Gen != nil {
+		m["corpus_types"] = c.Gen.Types
+		m["corpus_types_skipped"] = c.Gen.Skipped
+	}
+	m["corpus"] = "programs are not quantified over: /verif/corpus/*.thrift, generated afresh by the thriftrw CLI built from /repo's working tree"
+	return m
+}
+
+func checkC01() *CheckDef {
+	c := &CheckDef{ID: "C01", Assume: append(append([]string{}, commonAssume...),
+		"T4 the independent reference codec and the structural equality are harness code (harness/genlib) written from the Thrift spec",
+		"T5 schema facts come from /repo's own compile package; generated struct fields are assumed to appear in schema order")}
+	c.Prepare = genPrepare(1, 1)
+	c.Harnesses = func(tier string) []*sym.HarnessConfig {
+		d := 2
+		out := genHarnesses(c, "gH01", map[string]int{"depth": d}, 20000000)
+		out = append(out, &sym.HarnessConfig{Name: "gHWitness", Pkg: c.Gen.MainPkg, Params: map[string]int{"type": 0, "depth": 1}, Budget: 20000000, ExpectViolation: true})
+		return out
+	}
+	c.Bounds = func(tier string) map[string]interface{} {
+		return genBounds(c, map[string]interface{}{"containers_max": 1, "strings_max": 1, "struct_nesting": 2,
+			"outside": "programs outside the corpus; generator option sets other than --no-zap --no-embed-idl; String(); constants and accessors"})
+	}
+	return c
 }
